@@ -59,6 +59,7 @@ type hooks struct {
 	choose  func(site int, ready []int) int
 	resolve func(host string) (net.IP, error)
 	skew    func() time.Duration
+	ticker  func(d time.Duration)
 	knobs   map[string]int
 }
 
@@ -162,6 +163,19 @@ func AfterFunc(d time.Duration, f func()) *time.Timer {
 		d += sk()
 	}
 	return time.AfterFunc(d, f)
+}
+
+// ---- tickers (rule R10) ----------------------------------------------------------------
+
+// SetTickerHook: the simulator is told about every ticker go-upf starts.
+func SetTickerHook(f func(d time.Duration)) { set(func(h *hooks) { h.ticker = f }) }
+
+// NewTicker is time.NewTicker.
+func NewTicker(d time.Duration) *time.Ticker {
+	if f := get().ticker; f != nil {
+		f(d)
+	}
+	return time.NewTicker(d)
 }
 
 // ---- map iteration order (rule R3) -------------------------------------------------
